@@ -9,23 +9,26 @@ pool wait → DNS (shared lookup) → connect (one attempt per resolved address)
 optional slot holder `H` and an optional co-request `C` (same pool / same DNS lookup).
 
 Transcribed code (quirks included):
-* `ceilRule`, `totalDeadline`        = `helpers.TimeoutHandle.start` (`timeout >= threshold` → `ceil(when)`)
+* `ceilSec`, `totalDeadline`         = `helpers.TimeoutHandle.start` (`timeout >= threshold` → `ceil(when)`)
 * `ctxDeadline`                      = `helpers.ceil_timeout` (`delay > threshold` → `ceil(when)`), used by
                                        `BaseConnector.connect` (connect) and `TCPConnector._wrap_create_connection` (sock_connect)
-* `fireTotal`, `tcExit`              = `TimeoutHandle.__call__`, `TimerContext.timeout/__enter__/__exit__`
+* `fireTimer .total`, `tcExit`       = `TimeoutHandle.__call__`, `TimerContext.timeout/__enter__/__exit__`
                                        (incl. `Task.cancelling()/uncancel()` bookkeeping; nested contexts of
                                        `ClientSession._request` and `ClientResponse.start` both call `uncancel`)
-* `fireCtx`, `ctxExit`               = `asyncio.timeouts.Timeout._on_timeout/__aexit__`
-* `reschedRead`, `fireRead`, `pauseCheck`, `consume`
+* `fireTimer .conn/.sock`, `ctxExitCore`, `connExit`, `sockExit`
+                                     = `asyncio.timeouts.Timeout._on_timeout/__aexit__`
+* `Cfg.effTotal`                     = `client_reqrep.ClientTimeout.__post_init__`
+* `reschedRead`, `fireTimer .read`, `pauseCheck`, `consume`
                                      = `client_proto.ResponseHandler._reschedule_timeout/_on_read_timeout/
                                        pause_reading/resume_reading/data_received`, `streams.StreamReader` water marks
-* `startR`, `createConn`, `attempt`, `afterConnect`, `afterHeaders`, `readBody`
+* `startR`, `armStart`, `createConn`, `attemptConn`, `afterConnect`, `afterHeaders`, `readBody`
                                      = the code between two awaits of `ClientSession._request`,
                                        `client._connect_and_send_request`, `BaseConnector.connect`,
                                        `_wait_for_available_connection`, `TCPConnector._resolve_host`,
                                        `_create_direct_connection`, `ClientRequest._send/_write_bytes`,
                                        `ClientResponse.start/read/close/release/_response_eof`
-* `throwAt`                          = the exception paths of the same functions (finally/except blocks)
+* `throwAt`, `connPhaseExit`, `closeConn`, `releaseConn`, `releasePlaceholder`
+                                     = the exception paths of the same functions (finally/except blocks)
 * `releaseWaiter`                    = `BaseConnector._release_waiter` (single key, FIFO)
 
 Event-loop abstraction (DESIGN §4.3, time-stamped form): an *instant* is processed as
@@ -168,6 +171,7 @@ structure St where
   rpaused : Bool := false
   queued : List Piece := []
   respReleased : Bool := false      -- the response no longer owns a connection
+  dropTotal : Bool := false         -- `handle.cancel` of the total timer is queued behind the writer's end
   holder : Bool := false
   hRel : Bool := false              -- the holder's response arrived; its task releases the slot when it runs
   poolQ : List Who := []
@@ -261,10 +265,13 @@ def releaseWaiter (cfg : Cfg) (s : St) : St :=
 /-- `Connection.close()` / `_release(should_close=True)` / `protocol.close()` -/
 def closeConn (cfg : Cfg) (s : St) : St :=
   if s.respReleased then s else
+  -- with a live writer task the release callbacks (incl. `handle.cancel` of the total timer) run
+  -- only after the cancelled writer has finished, i.e. in the task phase of this instant
   let s := { s with respReleased := true, slot := .none, readT := none,
                     tr := if s.tr = .open then .closed else s.tr,
                     wr := if s.wr = .parked then .cancelled else s.wr,
-                    totalT := none }
+                    totalT := if s.wr = .parked then s.totalT else none,
+                    dropTotal := s.dropTotal || decide (s.wr = .parked) }
   releaseWaiter cfg s
 
 /-- `_response_eof` / `release()` on a complete message: cancel the writer (which then closes
@@ -533,11 +540,15 @@ def fireDue (cfg : Cfg) (t : Nat) : Nat → St → St
     | some (d, _, k) => if d ≤ t then fireDue cfg t fuel (fireTimer cfg s k) else s
     | none => s
 
+/-- callbacks queued behind the end of the cancelled writer task -/
+def applyDeferred (s : St) : St :=
+  if s.dropTotal then { s with totalT := none, dropTotal := false } else s
+
 /-- tasks run until nothing is pending at this instant -/
 def settle (cfg : Cfg) : Nat → St → St
   | 0, s => s
   | fuel + 1, s =>
-    let s' := flushQueued cfg 8 (resumeR cfg s)
+    let s' := flushQueued cfg 8 (resumeR cfg (applyDeferred s))
     if s'.mustCancel ∨ s'.wake.isSome then settle cfg fuel s' else s'
 
 /-- process every timer instant strictly before `t` -/
